@@ -33,7 +33,7 @@ def cases():
         "falsy": st.sampled_from([False, False, False, True]),
     })
     gcm = st.fixed_dictionaries({
-        "t": st.just("gcm"), "fn": st.sampled_from(["a", "a", "b", "c", "d", "d"]),
+        "t": st.just("gcm"), "fn": st.sampled_from(["a", "a", "b", "c", "d", "d", "e", "e"]),
         "hook": st.sampled_from(["next", "next", "none", "prune"]),
     })
     return st.fixed_dictionaries({"links": st.lists(st.one_of(mg, mg, gcm), min_size=1, max_size=7),
@@ -75,9 +75,10 @@ def model(case):
         else:
             info["gcm"] = True
             if not case["exiting"]:
-                s["inner"] = "gen%d" % cur
+                # fn "e": the generator's own stack is extracted with an error on it (an inner manager cannot be described)
+                s["inner"] = "gen%d" % cur + ("+error" if L["fn"] == "e" else "")
             s["desc"] = "GLUE"
-            if L["fn"] in ("a", "c", "d"):
+            if L["fn"] in ("a", "c", "d", "e"):
                 log.append(["ucg", cur, True])
                 r = L["hook"]
             else:
